@@ -348,6 +348,11 @@ impl<'tx> TxInner<'tx> {
             self.check()?;
         }
         if let TxLock::Rw(file) = &mut self.lock {
+            // The data pages must be on disk before the meta page that points at them,
+            // otherwise a power failure can leave a valid new meta page without its data.
+            file.flush()?;
+            file.sync_all()?;
+
             // write meta page to file
             verif_at!(CommitBeforeMeta, true);
             {
